@@ -238,8 +238,16 @@ func dlgScenario(s dlg) sched.Scenario {
 
 // ---- plain command: eager vs not ------------------------------------------------------------------
 
-func cmdScenario(eager bool, maxChunk, env int) sched.Scenario {
-	return sched.Scenario{Name: fmt.Sprintf("cmd/eager=%v/chunk=%d/env=%d", eager, maxChunk, env), Run: func(w *sched.W) {
+// dbl: the command ends in a doubled character and unread bytes (the prompt printed at connect) precede its
+// echo -- what a fuzzy echo matcher that lets one echoed byte count twice needs in order to return early
+func cmdScenario(eager, dbl bool, maxChunk, env int) sched.Scenario {
+	cmd := cm.Cmd1
+	name := fmt.Sprintf("cmd/eager=%v/chunk=%d/env=%d", eager, maxChunk, env)
+	if dbl {
+		cmd = "show vlan 100"
+		name += "/doubled"
+	}
+	return sched.Scenario{Name: name, Run: func(w *sched.W) {
 		cfg := cm.Cfg()
 		cfg.NoPreAlt, cfg.NoIdleAlt = true, env == 0
 		cfg.Horizon = 5 * time.Second
@@ -250,6 +258,9 @@ func cmdScenario(eager bool, maxChunk, env int) sched.Scenario {
 		w.Explore(cfg, sched.Bounds{Env: env}, func(e *sched.Env) {
 			d := cm.StdCLI("privilege-exec", false)
 			d.NoFirst = true
+			if dbl {
+				d = dev.NewCLI("m", &dev.Mode{Name: "m", Prompt: "router#", OnLine: dev.Table(map[string]dev.Reply{cmd: {Out: cm.Out1}})})
+			}
 			tr := dev.NewFake(e, d)
 			tr.MaxChunk, tr.Cuts = maxChunk, env > 0
 			var err, setupErr error
@@ -270,7 +281,7 @@ func cmdScenario(eager bool, maxChunk, env int) sched.Scenario {
 				}
 				w0 = len(tr.Writes)
 				e.OpenWindow()
-				r, rerr := g.SendCommand(cm.Cmd1, o...)
+				r, rerr := g.SendCommand(cmd, o...)
 				err = rerr
 				if r != nil {
 					res = r.Result
@@ -282,7 +293,7 @@ func cmdScenario(eager bool, maxChunk, env int) sched.Scenario {
 					return
 				}
 				ws := tr.Writes[w0:]
-				if len(ws) != 2 || string(ws[0].Data) != cm.Cmd1 || string(ws[1].Data) != "\n" {
+				if len(ws) != 2 || string(ws[0].Data) != cmd || string(ws[1].Data) != "\n" {
 					e.Violate("c12:cmd-writes", "writes %v", ws)
 					return
 				}
@@ -476,7 +487,7 @@ func scenarios(tier string) []sched.Scenario {
 			if mc == 0 {
 				env = envB + 1
 			}
-			out = append(out, cmdScenario(eager, mc, env))
+			out = append(out, cmdScenario(eager, false, mc, env), cmdScenario(eager, true, mc, env))
 		}
 	}
 	for _, b := range []string{"asks-grants", "grants", "refuses", "asks-refuses"} {
